@@ -863,19 +863,22 @@ func c09check(c *ctx, cases []c09case) {
 				"open": impl.class, "selected": o.ver, "session_id": o.sid, "ncaps": len(o.caps), "dom": dom})
 		}
 		// ---- correspondence: the model of the code (regex engine on the extracted patterns) vs the code
+		// (a disagreement does not end the case: the property oracle below still runs on it, so that a
+		// broken correspondence comes with a concrete failing input whenever there is one)
 		if impl.class != rx.class || impl.ver != rx.ver || impl.caps != rx.caps || impl.sid != rx.sid {
 			res.Fail("correspondence", caseLine, fmt.Sprintf("impl %v (%s) ; model %v ; request %s", impl, o.openErr, rx, c09trunc(lines[i])), "impl-vs-model:"+cs.kind)
-			continue
-		}
-		if impl.class == "ok" && impl.sent != rx.sent {
+		} else if impl.class == "ok" && impl.sent != rx.sent {
 			res.Fail("correspondence", caseLine, fmt.Sprintf("bytes written during Open %q ; model %s", o.sentOpen, rx.sent), "impl-vs-model:sent")
-			continue
 		}
 		if scan != rx {
 			res.Count("scanner-differs-from-engine:" + cs.kind)
 		}
 		// ---- oracle on the non-hello cell: a framed message without any hello must fail with a NETCONF error
 		if cs.kind == "nohello" {
+			if rx.class == "timeout" && scan.class == "timeout" {
+				res.Count("nohello: delimiter not visible in the search window (outside the domain)")
+				continue
+			}
 			res.InDomain++
 			if impl.class != "netconf" {
 				res.Fail("oracle", caseLine, fmt.Sprintf("server sent %q (no hello): Open returned %s, expected a NETCONF error", cs.raw, impl.class), "nohello:"+impl.class)
